@@ -11,6 +11,7 @@ import WrglModel.Model.Finder
 import WrglModel.Spec.Finder
 import WrglModel.Lemmas.C08
 import WrglModel.Lemmas.C08Multi
+import WrglModel.Lemmas.C08Process
 import WrglModel.Gen.Facts
 namespace Wrgl
 
@@ -73,6 +74,30 @@ example :
     (match enqueueWants true g 0 false 10 [3, 2] Finder.init [] [] with
      | .ok (f, p) => (f.commitLists, p)
      | _ => ([], [0])) = ([[1, 2, 3], []], []) := by decide
+
+/-- `Process` accepts every want that is reachable from some ref and has its table — whatever the
+    commit timestamps — … -/
+theorem C08_accepts_reachable_wants (g : Graph) (hwf : g.wf = true) (full : Full)
+    (tie : List (Nat × Int) → List (Nat × Int)) (htie : ∀ l, (tie l).Perm l ∧ (tie l).Pairwise (fun a b => a.2 ≥ b.2))
+    (order : List Nat → List Nat) (depth walkFuel : Nat) (refs : List Nat) (f : Finder)
+    (wants haves : List Nat) (done : Bool)
+    (hrefs : ∀ r ∈ refs, (g.get? r).isSome = true)
+    (hw : ∀ w ∈ wants, full w = true ∧ ∃ r ∈ refs, Reach g w r) :
+    Finder.process Facts.finderRevisitsWithinDepth g full tie order depth walkFuel refs f wants haves done ≠ .err "unrecognized-wants" :=
+  process_accepts_reachable _ g hwf full tie htie order depth walkFuel refs f wants haves done hrefs hw
+
+/-- … and only those; and every acknowledged have is one of the haves and an ancestor-or-self of
+    some ref (so "common" commits really are common). -/
+theorem C08_process_sound (g : Graph) (hwf : g.wf = true) (full : Full)
+    (tie : List (Nat × Int) → List (Nat × Int)) (htie : ∀ l, (tie l).Perm l ∧ (tie l).Pairwise (fun a b => a.2 ≥ b.2))
+    (order : List Nat → List Nat) (depth walkFuel : Nat) (refs : List Nat) (f : Finder)
+    (wants haves : List Nat) (done : Bool)
+    (hrefs : ∀ r ∈ refs, (g.get? r).isSome = true)
+    (acks : List Nat) (f' : Finder)
+    (h : Finder.process Facts.finderRevisitsWithinDepth g full tie order depth walkFuel refs f wants haves done = .ok (acks, f')) :
+    (∀ w ∈ wants, full w = true ∧ ∃ r ∈ refs, Reach g w r) ∧
+    (∀ a ∈ acks, a ∈ haves ∧ ∃ r ∈ refs, Reach g a r) :=
+  process_ok_sound _ g hwf full tie htie order depth walkFuel refs f wants haves done hrefs acks f' h
 
 /-- The walk terminates on every (acyclic) history. -/
 theorem C08_terminates (g : Graph) (hwf : g.wf = true) (hac : Acyclic g)
